@@ -112,11 +112,10 @@ func (inv *Invoice) Validate() error {
 func (inv *Invoice) ValidateWithContext(ctx context.Context) error {
 	ctx = inv.validationContext(ctx)
 
-	var exRule validation.Rule
-	exRule = validation.Skip
+	curRules := []validation.Rule{validation.Required}
 	if r := inv.RegimeDef(); r != nil {
 		// regime specific additions for validation
-		exRule = currency.CanConvertInto(inv.ExchangeRates, r.Currency)
+		curRules = append(curRules, currency.CanConvertInto(inv.ExchangeRates, r.Currency))
 	}
 
 	return tax.ValidateStructWithContext(ctx, inv,
@@ -140,10 +139,7 @@ func (inv *Invoice) ValidateWithContext(ctx context.Context) error {
 		),
 		validation.Field(&inv.OperationDate),
 		validation.Field(&inv.ValueDate),
-		validation.Field(&inv.Currency,
-			validation.Required,
-			exRule,
-		),
+		validation.Field(&inv.Currency, curRules...),
 		validation.Field(&inv.ExchangeRates),
 		validation.Field(&inv.Preceding),
 		validation.Field(&inv.Tax),
